@@ -44,7 +44,11 @@ cast(n, "str")
 replace(w, "[B-Z]+", "y")
 strfmt(sf, "%s-%v", w, n)
 sql_cover(q)
-default_time(ts, "+8")
+if ok {
+  default_time(ts, "+8")
+} else {
+  default_time(ts, "America/New_York")
+}
 datetime(dt, "ms", "RFC3339")
 xml(xm, "/a/b", xv)
 url_decode(u)
